@@ -440,9 +440,30 @@ def _run_case(case, exec_seed=None, exec_tape=None):
             except Exception as e:  # noqa: BLE001 - refused by the tree: not this property's business
                 run_err.append(e)
                 return
+            _check_modes()
             while idx < len(ops) and ops[idx]["op"] != "exit" and not viol:
                 do_op(ops[idx])
                 idx += 1
+
+        def _check_modes():
+            """'From any process' includes a process of another user who shares the folder: whatever the run stored must
+            carry the permissions the umask grants (a file created 0600 under umask 022 cannot be reloaded by anybody else)."""
+            um = os.umask(0)
+            os.umask(um)
+            want_f, want_d = 0o666 & ~um, 0o777 & ~um
+            for dp, dns, fns in os.walk(folder):
+                for n in sorted(dns) + sorted(fns):
+                    full = os.path.join(dp, n)
+                    try:
+                        mode = os.stat(full).st_mode & 0o777
+                    except OSError:
+                        continue
+                    want = want_d if os.path.isdir(full) else want_f
+                    if mode & want != want:
+                        V("permissions", "stored-file-narrower-than-umask",
+                          {"file": simfs_rel(full, folder), "mode": oct(mode), "umask": oct(um)})
+                        return
+            probes["modes_checked"] = 1
 
         try:
             with sim:
@@ -483,6 +504,12 @@ def _run_case(case, exec_seed=None, exec_tape=None):
         out["nontrivial"] = [C.digest_of([describe(w), cfg["storage"], ops])]
     out["sample"] = {"workload": describe(w), "config": cfg, "ops": ops}
     return out
+
+
+def simfs_rel(path, base):
+    import re
+
+    return re.sub(r"\d+", "N", os.path.relpath(path, base))
 
 
 def _ds_values(ds, w):
